@@ -5,7 +5,11 @@ CHECK = dict(
            dict(name='c07mq', src=['harness/c04_messageq.c'], cflags=['-DC07', '-Wno-format-truncation'], workers=64,
                 objs=[('@VERIF@/harness/c04_scn.c', ['-fsanitize=thread'])], deadline=dict(quick=150, thorough=1800)),
            dict(name='c07fb', src=['harness/c06_fibre.c'], cflags=['-DC07', '-DPROP=6', '-Wno-format-truncation'], workers=64,
-                objs=[('@VERIF@/harness/c06_scn.c', ['-fsanitize=thread'])], deadline=dict(quick=150, thorough=1800))],
+                objs=[('@VERIF@/harness/c06_scn.c', ['-fsanitize=thread'])], deadline=dict(quick=150, thorough=1800)),
+           # not a deciding step: the ring buffer and message queue bodies as real free-running pthreads under the real
+           # ThreadSanitizer runtime for a few seconds, as an independent cross-check of the detector (thorough tier only)
+           dict(name='c07tsan', src=['harness/c07_tsan_free.c'], cflags=['-fsanitize=thread', '-pthread', '-O1'], workers=1,
+                tiers=('thorough',), deadline=dict(thorough=60))],
     rule='every execution explored for C04, C05 and C06 (same scenario sets, same explorer) with a vector-clock happens-before '
          'detector: the clocks are computed only from the memory-order argument compiled into each executed atomic operation '
          '(release store / RMW publishes, acquire load / RMW joins, relaxed operations only through fences, a relaxed store ends a '
